@@ -312,6 +312,19 @@ theorem callG_sound (g : Glue) (hg : GlueOk g = true) (c0 now : SContent) (cl : 
         intro J hJ
         exact callJac_of_compile now t xs f vn pn values J hja hf hJ
 
+/-- no needless compilation: while the model has not been edited since the closure was compiled, a call uses the
+    compiled function as it is -/
+theorem no_needless_recompile (g : Glue) (s : SimState) (hinv : SimInv s) (cl : JacClosure) (ver : Nat)
+    (hj : s.jac = some (cl, ver)) (hver : ver = s.version) : s.recompilesG g = false := by
+  obtain ⟨c0, hi, hc⟩ := hinv
+  rw [hj] at hi
+  simp only [Option.map_some] at hi
+  have hnow := (hc cl ver hj).2 hver
+  obtain ⟨vn0, pn0, hv0⟩ := installJac_vals c0 cl hi
+  unfold SimState.recompilesG JacClosure.recompilesG
+  simp only [hj, hnow, hv0, hver]
+  simp
+
 theorem step_inv (g : Glue) (hg : GlueOk g = true) (s s' : SimState) (op : SimOp) (o : SimOut)
     (hinv : SimInv s) (h : s.stepG g op = .ok (s', o)) :
     SimInv s' ∧ GoodOuts s.content [op] [o] ∧ s'.content = op.after s.content := by
@@ -429,6 +442,23 @@ theorem run_good (g : Glue) (hg : GlueOk g = true) : ∀ (ops : List SimOp) (s s
         obtain ⟨hgood, hinv2⟩ := ih s1 s2 os hinv1 hr
         rw [hcont] at hgood
         exact ⟨goodOuts_cons s.content op o ops os hgood1 hgood, hinv2⟩
+
+/-- after any history the invariant holds (so `no_needless_recompile` applies to the state reached) -/
+theorem sim_history_inv (g : Glue) (hg : GlueOk g = true) (c : SContent) (ops : List SimOp) (s0 s : SimState)
+    (outs : List SimOut) (h0 : simInitG g c = .ok s0) (hr : runG g s0 ops = .ok (s, outs)) : SimInv s := by
+  unfold simInitG at h0
+  simp only [installG_eq g hg, bind, Except.bind, pure, Except.pure, Except.ok.injEq] at h0
+  subst h0
+  have hinv : SimInv { content := c, version := 0, jac := (installJac c).map fun cl => (cl, 0) } := by
+    refine ⟨c, ?_, ?_⟩
+    · cases installJac c <;> simp
+    · intro cl ver hj
+      cases hij : installJac c with
+      | none => simp [hij] at hj
+      | some cl0 =>
+        simp only [hij, Option.map_some, Option.some.injEq, Prod.mk.injEq] at hj
+        exact ⟨by rw [← hj.2]; exact Nat.le_refl _, fun _ => rfl⟩
+  exact (run_good g hg ops _ s outs hinv hr).2
 
 /-- **every history**: build the Simulator on `c`, apply any sequence of parameter updates, other edits of the model,
     re-initialisations and Jacobian calls; every matrix the integrator receives is `jac_fn` of a fresh Simulator on the
